@@ -194,7 +194,18 @@ def r_sort(ctx, model):
         def argmax_(ev, a, k):
             m_ = a[0]
             if k.get("axis") is not None:
-                raise AnalysisError("argmax along an axis in evec_sort")
+                # per-row / per-column position of the maximum (first one on ties, as numpy)
+                ax = int(as_sym(k.get("axis"))) % 2
+                if len(m_.shape) != 2:
+                    raise AnalysisError("argmax along an axis of something that is not a matrix")
+                n_out, n_in = m_.shape[1 - ax], m_.shape[ax]
+                out = ArrV(0, (n_out,))
+                for o in range(n_out):
+                    vals = [sp.sympify(m_.get((i_, o) if ax == 0 else (o, i_))) for i_ in range(n_in)]
+                    if not all(v.is_real and v.is_number for v in vals):
+                        raise AnalysisError("argmax of a matrix that is not real (magnitudes expected)")
+                    out.cells[(o,)] = sp.Integer(max(range(n_in), key=lambda i_: (vals[i_], -i_)))
+                return out
             keys = list(itertools.product(*[range(d) for d in m_.shape]))
             vals = [sp.sympify(m_.get(kk)) for kk in keys]
             if not all(v.is_real and v.is_number for v in vals):
